@@ -458,7 +458,7 @@ func runC15(c *Ctx) {
 		// expiry = client's interval if v5 and flagged, else server maximum
 		ok := false
 		for _, ins := range instrs(f) {
-			if p, isPhi := ins.(*ssa.Phi); isPhi && p.Comment == "expire" {
+			if p, isPhi := ins.(*ssa.Phi); isPhi && canonName(p, p.Comment) == "expire" {
 				var ds []string
 				for _, e := range p.Edges {
 					ds = append(ds, describe(e))
